@@ -17,6 +17,7 @@ func init() {
 		"(1) RESTORE: the only code that writes into the sniffed bytes in place is QUIC header-protection removal; in sniffQuicBlock the bytes it may touch (first byte, packet-number bytes) are saved and their restoration is registered by defer before decryption starts, so every exit — including the decryption-failure return — leaves the datagram as the client sent it; the reviewed set of in-place writers is closed; " +
 		"(2) BOUND: every slice expression over a local byte slice with a non-constant upper bound is dominated by a comparison of that bound with the length of that same slice (the TLS record-completeness test compares the record length with the bytes after the record header, not with the whole buffer); " +
 		"(3) LOCATOR: a value returned by Locator.At/Range/Slice is used only after its error was tested; (4) DEADLINE: sniffing read deadlines are cleared on every path (shared with C05); ARMED: every read of a deadline-bounded detection window is dominated by the arm of that deadline (never armed under a first-time flag while the disarm runs after every read); (5) TIMEOUT/REPLAY: every sniffer is constructed with the configured sniffing timeout; bytes enter the replay buffer only through the reviewed writers. " +
+		"(6) QUICPARAM: the per-version Initial parameters (salt, key/iv/hp labels, client initial secret label, long-header type of an Initial packet) equal the RFC 9001 / RFC 9369 values at every site that uses them. " +
 		"Not decided, stated plainly: absence of panics / out-of-bounds for every byte string (the compiler leaves ~40 unproven bounds checks here; discharging them needs a relational numeric domain), that the extracted name is the one carried, recognition under all chunkings."})
 }
 
@@ -29,6 +30,7 @@ func runC06(c *Ctx) {
 	c.R.Floor("DEADLINE", arms, 2)
 	c.R.Floor("ARMED", armedReads(c, "ARMED", us), 1)
 	c06Replay(c)
+	c06QuicParams(c)
 }
 
 func c06Restore(c *Ctx) {
